@@ -101,6 +101,16 @@ func parseRangeHeader(s string) (*ObjectRangeRequest, error) {
 	var o ObjectRangeRequest
 
 	start, end := strings.TrimSpace(rnge[:i]), strings.TrimSpace(rnge[i+1:])
+
+	// A byte position is digits only: strconv.ParseInt would also take a
+	// sign ("bytes=0--0", "bytes=+0-1").
+	for _, pos := range []string{start, end} {
+		for _, c := range pos {
+			if c < '0' || c > '9' {
+				return nil, ErrInvalidRange
+			}
+		}
+	}
 	if start == "" {
 		o.FromEnd = true
 
